@@ -10,6 +10,10 @@ import Proofs.Fill
 import Proofs.Wrap
 import PM.CreateFill
 import Proofs.CreateFill
+import PM.FillOrder
+import PM.TypePlan
+import PM.FromDom
+import Proofs.Unify
 namespace PM.C15
 open PM
 
@@ -337,5 +341,197 @@ theorem defaultType_spec (S : Schema) (d : Dfa) (q : Nat) :
       have h2 : S.generatable e.1 = true := by simpa using List.find?_some hf
       rw [h1] at h2
       exact Bool.false_ne_true h2
+
+
+/-! ## Transfer to the other models of the same functions (appended by the unification package)
+
+  `fill_before`, `find_wrapping` and the argument-less `create_and_fill()` are modelled a second time,
+  order-faithfully and node-producing, for the Fitter (PM/FillOrder.lean), the planners
+  (PM/TypePlan.lean) and the parser (PM/FromDom.lean).  Proofs/Unify.lean relates the copies; here the
+  theorems above are restated for them, so that they speak about the code paths tied through those
+  models (C11/C18 Fitter, C13 `clear_incompatible`, C19 `find_place`/`finish`). -/
+
+/-- **the Fitter's filler search is sound** -/
+theorem fillBeforeTypes_sound (S : Schema) (d : Dfa) (hdet : ∀ q, ((d.edgesOf q).map (·.1)).Nodup)
+    (q : Nat) (after : List TypeId) (toEnd : Bool) (fill : List TypeId)
+    (h : fillBeforeTypes S d q after toEnd = some fill) :
+    isFill d S.generatable q after toEnd fill = true :=
+  fillBefore_sound d hdet S.generatable q after toEnd fill h
+
+/-- **the Fitter's filler search is complete**: it answers `None` only if no filling exists -/
+theorem fillBeforeTypes_complete (S : Schema) (d : Dfa) (hd : DfaWF d) (q : Nat) (hq : q < d.size)
+    (after : List TypeId) (toEnd : Bool) (h : fillBeforeTypes S d q after toEnd = none)
+    (fill : List TypeId) : isFill d S.generatable q after toEnd fill = false :=
+  fillBefore_complete d hd S.generatable q hq after toEnd h fill
+
+/-- **the Fitter's wrapper search is the wrapper search of this file** (on a schema whose edge labels are
+    node types) -/
+theorem findWrappingTypes_eq (S : Schema) (d : Dfa) (q : Nat) (hwf : WrapWF S d q) (target : TypeId) :
+    findWrappingTypes S d q target = findWrapping S d q target :=
+  PM.findWrappingTypes_eq S d q hwf.1 (fun w e he => hwf.start w e.1 e.2 he) target
+
+/-- **the Fitter's wrapper search finds a shortest chain whenever any chain exists** -/
+theorem findWrappingTypes_shortest_complete (S : Schema)
+    (hdet : ∀ w, (((S.dfa w).edgesOf 0).map (·.1)).Nodup) (d : Dfa) (q : Nat) (hwf : WrapWF S d q)
+    (target : TypeId) (chain : List TypeId) (hc : isWrapChain S d q target chain = true) :
+    ∃ c, findWrappingTypes S d q target = some c ∧ isWrapChain S d q target c = true ∧
+      c.length ≤ chain.length := by
+  rw [findWrappingTypes_eq S d q hwf]
+  exact findWrapping_shortest_complete S hdet d q hwf target chain hc
+
+/-- … and what it returns is a fitting chain, no longer than any other -/
+theorem findWrappingTypes_sound_shortest (S : Schema)
+    (hdet : ∀ w, (((S.dfa w).edgesOf 0).map (·.1)).Nodup) (d : Dfa) (q : Nat) (hwf : WrapWF S d q)
+    (target : TypeId) (c : List TypeId) (h : findWrappingTypes S d q target = some c) :
+    isWrapChain S d q target c = true ∧
+      ∀ chain, isWrapChain S d q target chain = true → c.length ≤ chain.length := by
+  rw [findWrappingTypes_eq S d q hwf] at h
+  exact ⟨findWrapping_sound S hdet d q target c h, fun chain hc => findWrapping_shortest S d q target c h chain hc⟩
+
+/-- a leaf type's content automaton accepts the empty content (its start state is
+    `ContentMatch.empty`, a valid end: `is_leaf` *is* `content_match == ContentMatch.empty`).
+    Bounded quantifier: decidable. -/
+def LeafEmpty (S : Schema) : Prop :=
+  ∀ nt, nt ∈ S.nodes.toList → nt.isLeaf = true → Dfa.validEnd nt.dfa 0 = true
+
+instance (S : Schema) : Decidable (LeafEmpty S) := by unfold LeafEmpty; exact inferInstance
+
+theorem LeafEmpty.all {S : Schema} (h : LeafEmpty S) (t : TypeId) (hl : (S.nodeType t).isLeaf = true) :
+    (S.dfa t).validEnd 0 = true := by
+  unfold Schema.dfa
+  unfold Schema.nodeType at hl ⊢
+  by_cases ht : t < S.nodes.size
+  · have e : S.nodes[t]! = S.nodes[t] := by simp [ht]
+    rw [e] at hl ⊢
+    exact h _ (by simp) hl
+  · have e : S.nodes[t]! = default := by simp [ht]
+    rw [e] at hl
+    exact absurd hl (by decide)
+
+/-- **the argument-less copies agree with `Schema.createAndFill … [] [] []`**: the Fitter's
+    `PM.createAndFill` returns a node exactly when the general model builds that node -/
+theorem createAndFillO_iff (S : Schema) (hleaf : LeafEmpty S) (fuel : Nat) (t : TypeId)
+    (ht : (S.nodeType t).isText = false) (n : Node) :
+    PM.createAndFill S fuel t = some n ↔ S.createAndFill fuel t [] [] [] = .node n := by
+  rw [createAndFill_eq_toOption S hleaf.all fuel t ht]
+  exact Built.toOption_eq_some
+
+/-- … the planners' `Schema.createAndFill0` likewise -/
+theorem createAndFill0_iff (S : Schema) (hleaf : LeafEmpty S) (fuel : Nat) (t : TypeId)
+    (ht : (S.nodeType t).isText = false) (n : Node) :
+    S.createAndFill0 fuel t = some n ↔ S.createAndFill fuel t [] [] [] = .node n := by
+  rw [createAndFill0_eq]
+  exact createAndFillO_iff S hleaf fuel t ht n
+
+/-- … and the parser's `FromDom.createAndFill` -/
+theorem createAndFillDom_iff (S : Schema) (hleaf : LeafEmpty S) (fuel : Nat) (t : TypeId)
+    (ht : (S.nodeType t).isText = false) (n : Node) :
+    FromDom.createAndFill S fuel t = .ok n ↔ S.createAndFill fuel t [] [] [] = .node n := by
+  rw [← createAndFillO_iff S hleaf fuel t ht n, ← FromDom.createAndFill_toOption]
+  cases FromDom.createAndFill S fuel t <;> simp [Except.toOption]
+
+/-- what `createAndFill_valid` says about a node built without arguments -/
+def FilledValid (S : Schema) (t : TypeId) (n : Node) : Prop :=
+  S.checkNode n = true ∧ S.tyOf n = t ∧ n.marks = [] ∧
+    computeAttrs (S.nodeType t).attrs [] = .ok n.attrs ∧ ∀ x, x ∈ n.kids → x.isText = false ∧ x.marks = []
+
+/-- **a node the Fitter's `create_and_fill()` model returns is schema-valid**: of the asked type, with
+    the default attributes, no marks, and unmarked non-text fillers as children -/
+theorem createAndFillO_valid (S : Schema) (hdet : ∀ w q, (((S.dfa w).edgesOf q).map (·.1)).Nodup)
+    (hleaf : LeafEmpty S) (fuel : Nat) (t : TypeId) (ht : (S.nodeType t).isText = false) (n : Node)
+    (h : PM.createAndFill S fuel t = some n) : FilledValid S t n := by
+  have hb := (createAndFillO_iff S hleaf fuel t ht n).1 h
+  have hs : setFrom [] = [] := by simp [setFrom]
+  obtain ⟨h1, h2, h3, h4, before, after, h5, h6⟩ :=
+    createAndFill_valid S hdet fuel t [] [] [] n hb (by rw [hs]; rfl) rfl (by simp)
+  refine ⟨h1, h2, by rw [h3, hs], h4, ?_⟩
+  intro x hx
+  rw [h5] at hx
+  exact h6 x (by simpa using hx)
+
+theorem createAndFill0_valid (S : Schema) (hdet : ∀ w q, (((S.dfa w).edgesOf q).map (·.1)).Nodup)
+    (hleaf : LeafEmpty S) (fuel : Nat) (t : TypeId) (ht : (S.nodeType t).isText = false) (n : Node)
+    (h : S.createAndFill0 fuel t = some n) : FilledValid S t n :=
+  createAndFillO_valid S hdet hleaf fuel t ht n (by rw [← createAndFill0_eq]; exact h)
+
+theorem createAndFillDom_valid (S : Schema) (hdet : ∀ w q, (((S.dfa w).edgesOf q).map (·.1)).Nodup)
+    (hleaf : LeafEmpty S) (fuel : Nat) (t : TypeId) (ht : (S.nodeType t).isText = false) (n : Node)
+    (h : FromDom.createAndFill S fuel t = .ok n) : FilledValid S t n :=
+  createAndFillO_valid S hdet hleaf fuel t ht n
+    ((createAndFillO_iff S hleaf fuel t ht n).2 ((createAndFillDom_iff S hleaf fuel t ht n).1 h))
+
+/-- **the nodes of a `fill_before` answer as the Fitter gets them** (`fillBeforeNodes`): their types
+    are a correct filling, and every one of them is a valid node of its type -/
+theorem fillBeforeNodes_valid (S : Schema) (hdet : ∀ w q, (((S.dfa w).edgesOf q).map (·.1)).Nodup)
+    (hleaf : LeafEmpty S) (d : Dfa) (hd : ∀ q, ((d.edgesOf q).map (·.1)).Nodup) (q : Nat)
+    (after : List TypeId) (toEnd : Bool) (ns : List Node)
+    (h : fillBeforeNodes S d q after toEnd = some (some ns)) :
+    isFill d S.generatable q after toEnd (S.types ns) = true ∧
+      ∀ n, n ∈ ns → FilledValid S (S.tyOf n) n := by
+  unfold fillBeforeNodes at h
+  cases hf : fillBeforeTypes S d q after toEnd with
+  | none => simp [hf] at h
+  | some tys =>
+    simp only [hf] at h
+    cases hm : tys.mapM (PM.createAndFill S (S.nodes.size + 1)) with
+    | none => simp [hm] at h
+    | some kids =>
+      simp only [hm, Option.some.injEq] at h
+      subst h
+      have hgen := fillBefore_all_gen _ _ _ _ _ _ hf
+      have hpair := mapM_option_pairs (PM.createAndFill S (S.nodes.size + 1)) tys kids hm
+      have hv : ∀ p, p ∈ tys.zip kids → FilledValid S p.1 p.2 := by
+        intro p hp
+        have hg := hgen p.1 (List.of_mem_zip hp).1
+        simp only [Schema.generatable, Bool.not_eq_eq_eq_not, Bool.not_true, Bool.or_eq_false_iff] at hg
+        exact createAndFillO_valid S hdet hleaf _ p.1 hg.1 p.2 (hpair.2 p hp)
+      have hty : S.types kids = tys := by
+        unfold Schema.types
+        apply List.ext_getElem
+        · simp [hpair.1]
+        · intro i h1 h2
+          have hl : i < kids.length := by simpa using h1
+          have hmem : (tys[i], kids[i]) ∈ tys.zip kids := by
+            rw [List.mem_iff_getElem]
+            exact ⟨i, by simp only [List.length_zip, hpair.1]; omega, by simp⟩
+          simpa using (hv _ hmem).2.1
+      refine ⟨?_, ?_⟩
+      · rw [hty]; exact fillBeforeTypes_sound S d hd q after toEnd tys hf
+      · intro n hn
+        obtain ⟨i, hi, rfl⟩ := List.mem_iff_getElem.1 hn
+        have hmem : (tys[i]'(by rw [← hpair.1]; exact hi), kids[i]) ∈ tys.zip kids := by
+          rw [List.mem_iff_getElem]
+          exact ⟨i, by have := hpair.1; simp only [List.length_zip]; omega, by simp⟩
+        have := hv _ hmem
+        rw [← this.2.1] at this
+        exact this
+
+/-- … and as the parser gets them (`FromDom.fillNodes`, used by `find_place` and `finish`) -/
+theorem fillNodesDom_valid (S : Schema) (hdet : ∀ w q, (((S.dfa w).edgesOf q).map (·.1)).Nodup)
+    (hleaf : LeafEmpty S) (d : Dfa) (hd : ∀ q, ((d.edgesOf q).map (·.1)).Nodup) (q : Nat)
+    (after : List TypeId) (toEnd : Bool) (ns : List Node)
+    (h : FromDom.fillNodes S d q after toEnd = .ok (some ns)) :
+    isFill d S.generatable q after toEnd (S.types ns) = true ∧
+      ∀ n, n ∈ ns → FilledValid S (S.tyOf n) n := by
+  refine fillBeforeNodes_valid S hdet hleaf d hd q after toEnd ns ?_
+  rw [← FromDom.fillNodes_toOption, h]
+  rfl
+
+/-- non-vacuity of `LeafEmpty`, and the transferred statements on the example schema: the Fitter's
+    searches give the answers of `findWrapping` / `fillBefore`, `ul.create_and_fill()` is `ul(li(p))` -/
+example : LeafEmpty S4 := by decide
+
+example : findWrappingTypes S4 (S4.dfa 0) 0 3 = some [2] ∧
+    fillBeforeTypes S4 (S4.dfa 2) 0 [] true = some [3] := by
+  constructor
+  · decide +kernel
+  · simp [fillBeforeTypes, fillBefore, fillSearch, fillEdges, Dfa.run, Dfa.validEnd, Dfa.edgesOf, Schema.dfa,
+      Schema.nodeType, Schema.generatable, S4, mkNT]
+
+example : PM.createAndFill S4 5 2 = some (.elem 2 [] [] [.elem 3 [] [] [.leaf 1 [] []]]) ∧
+    fillBeforeNodes S4 (S4.dfa 2) 0 [] true = some (some [.elem 3 [] [] [.leaf 1 [] []]]) := by
+  constructor <;>
+  simp [fillBeforeNodes, PM.createAndFill, fillBeforeTypes, fillBefore, fillSearch, fillEdges, Dfa.run,
+    Dfa.validEnd, Dfa.edgesOf, Schema.dfa, Schema.nodeType, Schema.generatable, Schema.mkNodeO, computeAttrs, S4, mkNT]
 
 end PM.C15
